@@ -140,7 +140,7 @@ stand_in("C18", "human_repr", "URL(u.human_repr()) == u and printable text is sh
          "yarl._url:URL.human_repr",
          "URLs built from decoded components over texts of <= 2 characters from the reserved delimiters, '%', space, "
          "a control character, non-ASCII BMP and non-BMP characters, per component; hosts in {IDN, IPv4, IPv6}")
-stand_in(("C03", "C15"), "fixed_point", "URL(str(u)) has the same string form and the same components as u",
+stand_in(("C03", "C15", "C09"), "fixed_point", "URL(str(u)) has the same string form and the same components as u",
          "yarl._url:encode_url",
          "URL strings composed of scheme x userinfo x host x port x path x query x fragment alternatives (see "
          "contracts/bounded_worker.py:fixed_point_cases) and the results of one modifier applied to each")
@@ -148,9 +148,23 @@ stand_in(("C12",), "query_algebra", "with_query / extend_query / update_query / 
          "yarl._url:URL.update_query",
          "6 existing queries (duplicates, blanks, reserved characters; thorough: +40 single-pair queries) x 10 keys x 9 values x "
          "{dict, pairs, MultiDict, dict of list, int, float, kwargs, str} + None and rejected values", primary=False)
-stand_in(("C19", "C03", "C09"), "build", "URL.build results are usable objects and fixed points; only ValueError/TypeError",
+stand_in(("C19", "C03", "C09", "C17"), "build", "URL.build results are usable objects and fixed points; only ValueError/TypeError",
          "yarl._url:URL.build",
          "scheme in {'', http, x} x 12 authority / host alternatives (incl. host-less ones) x 5 paths", primary=False)
 NONTRIVIAL_RULES["query_algebra"] = ("every (existing query, key, value) triple once per back end, each with six argument forms; "
                                      "non-trivial when the existing query is not empty")
 NONTRIVIAL_RULES["build"] = "every argument combination once per back end; non-trivial when build() returns a URL"
+stand_in(("C07", "C17", "C19"), "conformance_parse", "split_url / split_netloc / make_netloc == their executable specifications",
+         "yarl._parse:split_url",
+         "all strings of length <= 5 (quick) / 6 (thorough) over 14 characters (delimiters, TAB, LF, letters, digit) for split_url; "
+         "<= 6 / 7 over 10 characters for split_netloc; 6 x 6 x 4 x 4 x 2 argument combinations for make_netloc", primary=False)
+stand_in(("C15", "C14"), "conformance_path", "normalize_path (real function) == RFC 3986 5.2.4 remove_dot_segments, rooted paths",
+         "yarl._path:normalize_path",
+         "all rooted paths of <= 6 (quick) / 7 (thorough) segments over {., .., '', a, .a, a., ...}", primary=False)
+stand_in(("C16",), "conformance_host", "_encode_host == its executable specification on a host corpus",
+         "yarl._url:_encode_host",
+         "about 230 hosts (reg-names, IPv4/IPv6 with and without zone ids in both cases, IDN, every printable ASCII character in host "
+         "and zone position) x validation on/off", primary=False)
+NONTRIVIAL_RULES["conformance_parse"] = "every string of the stated alphabets once per back end; non-trivial when split_url finds an authority"
+NONTRIVIAL_RULES["conformance_path"] = "every segment sequence once per back end; non-trivial when normalisation changes the path"
+NONTRIVIAL_RULES["conformance_host"] = "every (host, validate) pair once per back end; non-trivial when the encoded host differs from the input"
